@@ -6,7 +6,7 @@ from tv.props import c23 as F
 
 ID = 'C24'
 LEVEL = 'exploration'
-QUICK_S = 60
+QUICK_S = 120
 THOROUGH_S = 1200
 TECHNIQUE = ('runtime monitoring: two-parser acceptance differential (grammar compiler parse phase vs textx.tx through the '
              'registered textx language) on generated and mutated grammar texts; divergences are delta-debugged to a minimal '
@@ -19,7 +19,7 @@ RULE = ('texts: random grammars printed from the generator ASTs (all operators, 
         'syntactic position, and 1-3 token/character mutations of all of '
         'them. Oracle: textx.tx accepts (no TextXSyntaxError from grammar_model_from_str) iff the compiler\'s PEG parser '
         'accepts. distinct = text; non-trivial = accepted by at least one side and contains a reference, a modifier or RREL')
-REQUIRED = {'texts': 8000, 'accepted_by_both': 1500, 'rejected_by_both': 1500, 'targeted_snippets': 800, 'template_texts': 3000}
+REQUIRED = {'texts': 5000, 'accepted_by_both': 1500, 'rejected_by_both': 1500, 'targeted_snippets': 800, 'template_texts': 2000}
 
 SNIPPETS = [
     "A: a=[B:ID]; B: name=ID;", "A: a=[B|ID]; B: name=ID;", "A: a=[B:ID|b]; B: name=ID b*=B;", "A: a=[B|ID|b]; B: name=ID b*=B;",
@@ -50,7 +50,7 @@ SNIPPETS = [
 # every lexical class crossed with every syntactic position (templates filled from pools)
 IDENTS = ['B', 'x.B', 'a.b.C', 'a.b.c.D', '1B', 'B9', '_b', 'B\u00e9', 'b-c', 'B.', '.B', 'B..C', '', 'INT', 'INTx', 'ID', 'OBJECT', 'eolterm',
           'skipws', 'ws', 'import', 'as', 'reference', 'parent', 'STRICTFLOAT', 'BASETYPE', 'NUMBERS', 'b_c', 'B C',
-          'imports', 'references', 'assembly', 'importfoo', 'referencefoo', 'eoltermx', 'parents', 'asx', 'wsx', 'skipwsx', 'INTs']
+          'imports', 'references', 'assembly', 'ImportList', 'References', 'EOLTERM', 'Eolterm', 'SKIPWS', 'Parent', 'AS', 'WS', 'NoSkipWs', 'importfoo', 'referencefoo', 'eoltermx', 'parents', 'asx', 'wsx', 'skipwsx', 'INTs']
 STRS = ["'a'", '"a"', "''", '""', "'\\''", '"\\""', "'a b'", "'\\n'", "' '", "'/'", "'['", "'a", 'a"', "'\u00e9'", "'\\u00e9'"]
 REGS = ['/a/', '/\\//', '/[a-z]+/', '/ /', '//', '/a\\\\/', '/(a)/', '/a/ ', '/a', '/\\d+(\\.\\d+)?/']
 TEMPLATES = [
@@ -62,7 +62,9 @@ TEMPLATES = [
     "reference {I}\nA: 'x';", "reference {I} as {I}\nA: 'x';", "A: a+=INT[{S}];", "A: a+=INT[{S} eolterm];", "A: a+=INT[eolterm {S}];",
     "A: a+=INT[{R}];", "A: a+=INT[{I}];", "A: 'x'*[{S} {S}];", "A: {S};", "A: {R};", "A: a={S};", "A: a={R};", "A: {S}-;", "A: {R}-;", "A: {S} {R} {S};",
     "A: ({S} | {R})*;", "import{I}\nA: 'x';", "reference{I}\nA: 'x';", "reference foo as{I}\nA: 'x';", "reference foo\n{I}: 'x';", "import foo\n{I}: 'x';",
-    "A: a+=INT[eolterm{I}];", "A: a+=INT[{S}eolterm];", "A: a=[B:ID|parent{I}(B)];", "A: a=[B:ID|parent({I})b];", "A[skipws{I}]: 'x';", "A[ws{I}={S}]: 'x';", "A: {R}{R};", "A: {R} / {R};", "A: {S}{S};", "A: a={I} b={I};", "A: ({I} {I})#[{S}];", "A: a=[{I}]*;", "A: a*=[{I}][{S}];",
+    "A: a+=INT[eolterm{I}];", "IMPORT {I}\nA: 'x';", "Import {I}\nA: 'x';", "REFERENCE {I} AS {I}\nA: 'x';", "reference {I} As {I}\nA: 'x';",
+    "A: a+=INT[{S} EOLTERM];", "A: a+=INT[Eolterm];", "A[SKIPWS]: 'x';", "A[NoSkipWs, WS={S}]: 'x';", "A: a=[B:ID|PARENT(B).{I}];", "A: a=[B:ID|Parent({I})];",
+    "A: a=[B:ID|+M:{I}];", "A: a=[B:ID|+P:{I}];", "A: a+=INT[{S}eolterm];", "A: a=[B:ID|parent{I}(B)];", "A: a=[B:ID|parent({I})b];", "A[skipws{I}]: 'x';", "A[ws{I}={S}]: 'x';", "A: {R}{R};", "A: {R} / {R};", "A: {S}{S};", "A: a={I} b={I};", "A: ({I} {I})#[{S}];", "A: a=[{I}]*;", "A: a*=[{I}][{S}];",
     "A: a=[{I}:{I}|+mp:{I}.{I}*];", "A: a=[B:ID|+pm:{S}~{I}.~{I}];", "{I}: {I}; {I}: {I};", "A: 'x'; {I}", "A: 'x' // {I}\n;", "A: /* {I} */ 'x';",
 ]
 
@@ -87,6 +89,12 @@ _cache = {}
 
 def parsers():
     if not _cache:
+        import os
+        if os.getpid() % 2:
+            # the very first metamodel of this process is a case-insensitive one (anything cached per process by the
+            # first compilation shows in every later one)
+            from textx import metamodel_from_str
+            metamodel_from_str("A: 'a' b=INT;", ignore_case=True, autokwd=True, skipws=False)
         from arpeggio import ParserPython
         from textx.lang import textx_model, comment
         from textx import metamodel_for_language
@@ -99,14 +107,32 @@ def accepts(text):
     """(compiler parse phase accepts, textx.tx accepts); an exception other than a syntax error is reported as such"""
     from arpeggio import NoMatch
     from textx import TextXSyntaxError
+    from textx import metamodel_from_str, TextXError
     comp, tx = parsers()
+    # the compiler = the library's own entry point: the text is parsed iff no TextXSyntaxError caused by a NoMatch of
+    # the grammar parser comes out (complaints of the later phases mean it was parsed)
     try:
-        comp.parse(text)
+        metamodel_from_str(text)
         a = True
-    except NoMatch:
-        a = False
+    except TextXSyntaxError as e:
+        a = not isinstance(e.__cause__, NoMatch)
+    except TextXError:
+        a = True
     except RecursionError:
         a = 'RecursionError'
+    except Exception:
+        a = True        # not a parse-phase verdict (C23 judges exception types)
+    if a is not True or True:
+        # the stand-alone grammar parser must agree with the entry point
+        try:
+            comp.parse(text)
+            a2 = True
+        except NoMatch:
+            a2 = False
+        except RecursionError:
+            a2 = 'RecursionError'
+        if a2 != a and isinstance(a, bool) and isinstance(a2, bool):
+            a = 'entry point %s / grammar parser %s' % ('parses' if a else 'rejects', 'parses' if a2 else 'rejects')
     try:
         tx.grammar_model_from_str(text)
         b = True
@@ -231,7 +257,7 @@ def one(ctx, i, rep=None):
 
 
 def run(ctx):
-    for i in ctx.indices(4000 if ctx.tier == 'quick' else 120000, 'random'):
+    for i in ctx.indices(2400 if ctx.tier == 'quick' else 120000, 'random'):
         one(ctx, i)
 
 
